@@ -105,8 +105,24 @@ func routeScenario(v6 bool, xids, ths []byte, evs [][]byte) []callOutcome {
 				m.AddOption(&dhcpv6.OptionGeneric{OptionCode: 4000, OptionData: []byte{p}})
 				m.AddOption(dhcpv6.OptServerID(&dhcpv6.DUIDLL{HWType: 1, LinkLayerAddr: net.HardwareAddr{2, 0, 0, 0, 0, 9}})) // a realistic length
 				b = m.ToBytes()
-				if kind >= 1 && kind <= 3 {
+				switch kind {
+				case 1:
 					b = b[:len(b)-1] // undecodable: the only filter nclient6 has
+				case 2, 3:
+					// not a client/server message at all: the very reply, wrapped in one or three relay headers
+					// (Relay-reply or Relay-forward) as a relay agent on the same link sees it - not for a client
+					var cur dhcpv6.DHCPv6 = m
+					depth := 1 + 2*int((p+x)%2)
+					mt := dhcpv6.MessageTypeRelayReply
+					if kind == 3 {
+						mt = dhcpv6.MessageTypeRelayForward
+					}
+					for d := 0; d < depth; d++ {
+						if rm, err := dhcpv6.EncapsulateRelay(cur, mt, net.ParseIP("2001:db8::1"), net.ParseIP("fe80::1")); err == nil {
+							cur = rm
+						}
+					}
+					b = cur.ToBytes()
 				}
 			} else {
 				hw := labHW
